@@ -632,7 +632,9 @@ def gen_stats_query(rng, schema, ds, opts=None):
     while i < nstats:
         r = rng.random()
         if r < 0.25 and table in AGG_COLS:
-            lines.append("Stats: %s %s" % (rng.choice(["sum", "avg", "min", "max"]), rng.choice(AGG_COLS[table])))
+            # mostly numbers; sometimes any column (a value which is not a number counts as what it spells, else 0)
+            aggcol = rng.choice(AGG_COLS[table]) if rng.random() < 0.8 else rng.choice(cols)["name"]
+            lines.append("Stats: %s %s" % (rng.choice(["sum", "avg", "min", "max"]), aggcol))
             i += 1
         elif r < 0.65:
             # a run of counters sharing their leading terms, so that the grouping optimiser fires
